@@ -53,6 +53,7 @@ def parseLine (s : String) : Option Line :=
     some (.incl (if n.startsWith "<" && n.endsWith ">" then ((n.drop 1).dropEnd 1).toString else n))
   | "O" => some .pragmaOnce
   | "W" => some .pragmaWarning
+  | "N" => some .null
   | "T" => (parseToks rest).map (fun t => .text (located t))
   -- a directive line that is rejected: `X P` = `#pragma foo`, `X P0` = `#pragma`, `X C` = `#foo`, `X I0` = `#include`,
   -- `X I1` = `#include foo`, `X I2` = `#include "f1" x`
@@ -226,6 +227,10 @@ def tstepLine (inc : String → TState → Except Err TState) (cur : String) :
     match tflush ts active with
     | .error e' => .error e'
     | .ok _ => .error e
+  | (ts, active), .null =>
+    match tflush ts active with
+    | .error e => .error e
+    | .ok ts => .ok (ts, [eol])
 
 def tfoldLines (inc : String → TState → Except Err TState) (cur : String) :
     TState × List PTok → List Line → Except Err (TState × List PTok)
